@@ -12,7 +12,7 @@ import (
 )
 
 var (
-	namePool = []string{"p1", "p2", "secret", "x"}
+	namePool = []string{"p1", "p2", "secret", "x", "alice.svc"}
 	skPool   = []string{"k1", "k2", "", "long key \xc3\xbc 0123456789", hx.DefaultToken}
 	userPool = []string{"", "alice", "bob", "*", "al", "alice2", "ALICE", "*bob", "mallory"}
 	allowPool = [][]string{
